@@ -28,7 +28,7 @@ func init() {
 		Rule:           "a run = 1..6 well-formed messages of tape-chosen types (all 21 registered commands and an unregistered one, tape-chosen field contents) serialised with the real WriteMessage into one byte stream, with at most one fault per frame (wrong magic, oversize length, bad checksum, header byte flip, declared-huge length, payload mutated with the checksum recomputed: byte flips, truncation, trailing bytes, insert/delete, hostile count values, command swapped to another type, duplication) and an optional cut of the stream; the stream is read by the real types.ReadMessage through a reader that fragments at tape-chosen sizes and, when that was uneventful, again by the real link.Link.Rx from a SimConn (EOF or stall at the end); a reference framing model says which frames must be rejected; non-trivial = at least one fault was injected AND at least one message was accepted; distinct = distinct event-trace hash",
 		Real:           []string{"p2pserver/message/types (WriteMessage, ReadMessage, every Serialization/Deserialization)", "p2pserver/link (Link.Rx, CloseConn)", "p2pserver/common (checksum, PeerId/PeerKeyId codecs)", "core/types (Header, Block, Transaction, CrossChainMsg codecs)", "core/signature + ontology-crypto (key and signature codecs, verification inside decoders)"},
 		Stub:           []string{"net.Conn: in-memory byte source with tape-chosen fragmentation, EOF or stall", "message consumer: a buffered channel read by the harness"},
-		Assumptions:    []string{"the unmodified frames written by WriteMessage for harness-built messages are well-formed and must be accepted", "allocation is read from runtime/metrics /gc/heap/allocs:bytes around each ReadMessage call and compared with MAX_PAYLOAD_LEN + 1 MiB", "inputs whose decoding would abort the process with an unrecoverable out-of-memory error (CrossChainMsg signature count between 128 MiB/24 and 2^48/24) are recognised beforehand, skipped and counted (probe fatal_alloc_avoided): the harness can only report what it survives"},
+		Assumptions:    []string{"the unmodified frames written by WriteMessage for harness-built messages are well-formed and must be accepted", "allocation is read from runtime/metrics /gc/heap/allocs:bytes around each ReadMessage call and compared with MAX_PAYLOAD_LEN + 1 MiB", "an input whose decoding aborts the worker process (unrecoverable out-of-memory under the 6 GiB address-space limit, stack overflow) cannot be judged inside the run: bin/check re-executes that run alone twice and reports a reproducible abort as a violation (oracle process-aborted)"},
 		ExpectedProbes: []string{"reject_bad_magic", "reject_oversize_length", "reject_bad_checksum", "reject_eof_header", "reject_eof_payload", "decoder_rejected", "accepted_mutated", "accepted_wellformed", "unknown_cmd", "big_declared_length", "rx_ran", "rx_stall", "rx_dedup_datareq"},
 		Run:            runC24,
 	})
@@ -296,10 +296,10 @@ func c24Direct(c *simkit.Ctx, stream []byte, frames map[int]*c24FrameInfo, magic
 		}
 		if exp.kind == "valid" && exp.cmd == p2pcomm.BLOCK_TYPE {
 			if fatal, n := c24BlockFatal(exp.payload); fatal {
-				c.Probe("fatal_alloc_avoided")
-				c.Logf("@%d block message with CrossChainMsg signature count %d: decoding would abort the process (out of memory); skipped", start, n)
-				eventful = true
-				return
+				// if the decoder pre-allocates from this count the runtime aborts the
+				// process; bin/check turns a reproducible abort into a violation
+				c.Probe("hostile_crosschain_sig_count_executed")
+				c.Logf("@%d block message with CrossChainMsg signature count %d", start, n)
 			}
 		}
 		a0 := c24Allocs()
